@@ -146,7 +146,10 @@ class GateCompiler(object):
             instruction = self.gate_compiler[gate.name](gate, self.args)
             if instruction is None:
                 continue  # neglecting global phase gate
-            instruction_list += instruction
+            # An instruction of zero duration contains no pulse (e.g. a rotation
+            # by the angle 0), it would only add a duplicate point to the time
+            # grid of its channel.
+            instruction_list += [ins for ins in instruction if ins.duration != 0]
         if not instruction_list:
             return None, None
 
